@@ -909,3 +909,7 @@ CASES["C09"] += [
     ("tile accepted when it divides the whole dimension", "mutant", "snaxc/transforms/set_memory_layout.py",
      "if size_remaining % schedule_bound != 0:", "if memref_type.get_shape()[accessed_dim] % schedule_bound != 0:", ["C09.radix"]),
 ]
+
+CASES["C12"] += [
+    ("reintroduce F-45 (a global with a layout is transformed again)", "mutant", "snaxc/transforms/realize_memref_casts.py", "@revert:d2a57a7~1", "", ["C12.const-guards"]),
+]
